@@ -11,8 +11,9 @@
    full statement is the Prop Proofs.WriterInvProofs.smiles_invariant_discrete_goal and is NOT proved.  The stereo
    refinement (`_chiral_morgan`) is not covered by theorems: search in harness/checks/C01.py. *)
 From Coq Require Import ZArith List Bool Permutation Sorting.Sorted String.
+From Gen Require Import MorganConsts.
 From Model Require Import PyBase PyHash Graph Morgan Stereo StereoRegistry Writer ChiralMorgan.
-From Proofs Require Import MorganProofs WriterInvProofs WriterStereoExt BfsExt BfsExt2 TraverseOrderExt InsertionOrderExt InsertionOrderExt2 ChiralMorganProofs StereoProofs StereoOrderExt StereoOrderExt2 RegistryRemapExt EnvLaws CtMapOrderExt AllStereoExt SameStereo EqHashExt ChiralDiscreteExt ChiralOrderExt MorganChargeRefuted ChiralReinsertExt ChiralReinsertBool.
+From Proofs Require Import MorganProofs WriterInvProofs WriterStereoExt BfsExt BfsExt2 TraverseOrderExt InsertionOrderExt InsertionOrderExt2 ChiralMorganProofs StereoProofs StereoOrderExt StereoOrderExt2 RegistryRemapExt EnvLaws CtMapOrderExt AllStereoExt SameStereo EqHashExt ChiralDiscreteExt ChiralOrderExt MorganChargeRefuted ChiralReinsertExt ChiralReinsertBool MorganConstsProofs.
 Import ListNotations.
 Open Scope Z_scope.
 
@@ -997,3 +998,52 @@ Theorem C01_two_descriptions_example :
     Ok ([(6, 1); (5, 2); (3, 3); (1, 4); (2, 5); (4, 6)], [[(4, 1); (2, -1); (6, 2); (1, 2); (5, 3); (3, 3)]]).
 Proof. exact two_descriptions_example. Qed.
 Print Assumptions C01_two_descriptions_example.
+
+(* TIE of the hand-written models to the source: Gen.MorganConsts is regenerated from /repo's source (Python ast) on every run by
+   tools/gen_morganconsts.py: the constants of `_morgan` (tries offset, stability limit / step / reset, rank start), the branch order of its
+   loop, the hashed tuple, the field order of Element.__hash__, Bond.__hash__, the returned expressions of atoms_order / int_adjacency,
+   every reference choice `key=morgan.get` and every test of __differentiation, the flip-half slices and set constructions of
+   _chiral_morgan.  The model's loop IS the loop with the generated constants, and the shapes are the ones the models were written
+   against: a source edit that the models do not follow breaks this theorem. *)
+Theorem C01_source_constants_match_model :
+  (forall h adj k atoms numb stab, refine h adj (S k) atoms numb stab =
+     if closed atoms adj then
+       let atoms' := round h atoms adj in
+       let numb' := ndistinct (map snd atoms') in
+       if (numb' =? Z.of_nat (List.length atoms'))%Z then Ok atoms'
+       else if (numb' =? numb)%Z then (if (stab =? msrc_stab_limit)%Z then Ok atoms' else refine h adj k atoms' numb' (stab + msrc_stab_step)%Z)
+       else if negb (stab =? msrc_stab_init)%Z then refine h adj k atoms' numb' msrc_stab_init
+       else refine h adj k atoms' numb' stab
+     else Err KeyError) /\
+  (forall h atoms adj, morgan_labels h atoms adj =
+     refine h adj (Z.to_nat (Z.of_nat (List.length atoms) - msrc_tries_offset)) atoms (ndistinct (map snd atoms)) msrc_stab_init) /\
+  (forall atoms, dense_rank atoms =
+     match isort by_label atoms with [] => [] | nv :: r => (fst nv, msrc_rank_start) :: rank_walk (snd nv) msrc_rank_start r end) /\
+  msrc_branch_tests = ["numb == len(atoms)"; "numb == old_numb"; "stab"] /\
+  msrc_round_stmt = "atoms = {n: hash((atoms[n], *(x for x in sorted(((atoms[m], b) for m, b in ms.items())) for x in x))) for n, ms in bonds.items()}" /\
+  msrc_counters_stmt = "old_numb, numb = (numb, len(set(atoms.values())))" /\
+  msrc_rank_expr = "{n: i for i, (_, g) in enumerate(groupby(sorted(atoms.items(), key=itemgetter(1)), key=itemgetter(1)), start=1) for n, _ in g}" /\
+  msrc_atoms_order_returns = ["_morgan({n: hash(a) for n, a in self.atoms()}, self.int_adjacency)"; "{}"; "dict.fromkeys(self, 1)"] /\
+  msrc_int_adjacency_returns = ["{n: {m: hash(b) for m, b in mb.items()} for n, mb in self._bonds.items()}"] /\
+  msrc_atom_hash_fields = ["self.isotope or 0"; "self.atomic_number"; "self.charge"; "self.is_radical"; "self.implicit_hydrogens or 0"; "self.in_ring"] /\
+  msrc_bond_hash_expr = "self.order" /\
+  msrc_diff_reference_choices = ["sorted(tetrahedrons[n], key=morgan.get)"; "min(n1, n2, key=morgan.get)"; "min(m1, m2, key=morgan.get)";
+                                 "min(n1, n2, key=morgan.get)"; "min(m1, m2, key=morgan.get)"] /\
+  msrc_diff_tests = ["atoms_stereo"; "not len(group) % 2"; "len((env := tetrahedrons[group[0]])) == len({morgan[x] for x in env})";
+                     "0 < len(s) < len(group)"; "cis_trans_stereo"; "(mn := morgan[n]) <= (mm := morgan[m])"; "not len(group) % 2";
+                     "morgan[n1] != morgan.get(n2, 0) and morgan[m1] != morgan.get(m2, 0)"; "n2 is None"; "m2 is None";
+                     "translate_cis_trans(n, m, a, b)"; "0 < len(s) < len(group)"; "allenes_stereo"; "not len(group) % 2";
+                     "morgan[n1] != morgan.get(n2, 0) and morgan[m1] != morgan.get(m2, 0)"; "n2 is None"; "m2 is None";
+                     "translate_allene(c, a, b)"; "0 < len(s) < len(group)"; "not morgan_update"] /\
+  msrc_chiral_loops = ["for group in atoms_groups"; "for n in group[:len(group) // 2]"; "for group in cis_trans_groups";
+                       "for (n, _) in group[:len(group) // 2]"; "for group in allenes_groups"; "for n in group[:len(group) // 2]"] /\
+  msrc_chiral_assigns =
+    ["stereo_atoms = {n for n, a in self.atoms() if a.stereo is not None}";
+     "stereo_bonds = {n for n, mb in self._bonds.items() if any((b.stereo is not None for m, b in mb.items()))}";
+     "morgan = self.atoms_order.copy()"; "atoms_stereo = stereo_atoms.intersection(self.tetrahedrons)";
+     "allenes_stereo = stereo_atoms - atoms_stereo"; "cis_trans_terminals = self._stereo_cis_trans_terminals";
+     "cis_trans_stereo = {cis_trans_terminals[n] for n in stereo_bonds}";
+     "morgan, atoms_stereo, cis_trans_stereo, allenes_stereo, atoms_groups, cis_trans_groups, allenes_groups = self.__differentiation(morgan, atoms_stereo, cis_trans_stereo, allenes_stereo)";
+     "morgan[n] = -morgan[n]"; "morgan[n] = -morgan[n]"; "morgan[n] = -morgan[n]"; "morgan = _morgan(morgan, self.int_adjacency)"].
+Proof. exact source_constants_match_model. Qed.
+Print Assumptions C01_source_constants_match_model.
